@@ -107,11 +107,19 @@ pub fn check(sc: &Scen, obs: &Obs) -> Vec<Violation> {
             }
         }
     }
-    let is_desynced = |ci: Option<usize>, ordinal: usize| ci.and_then(|c| desynced.get(&c)).map_or(false, |&from| ordinal > from);
+    // where each request was written (the scripted server may never get to answer a request whose
+    // "response" the client has already taken from the shifted stream)
+    let mut written: std::collections::HashMap<usize, (usize, usize)> = std::collections::HashMap::new();
+    for (ci, reqs) in obs.conn_reqs.iter().enumerate() {
+        for (pos, &j) in reqs.iter().enumerate() {
+            written.entry(j).or_insert((ci, pos));
+        }
+    }
+    let is_desynced = |j: usize| written.get(&j).map_or(false, |(ci, pos)| desynced.get(ci).map_or(false, |&from| *pos > from));
     for (j, spec) in sc.reqs.iter().enumerate() {
         let r = &resps[j];
         let sv = &obs.served[j];
-        if is_desynced(sv.conn, sv.ordinal) {
+        if is_desynced(j) {
             continue;
         }
         let complete = sv.conn.is_some() && sv.delivered >= r.framed_len;
